@@ -215,7 +215,8 @@ fn main() {
                 let mut s2 = vcore::src::Src::new(sb);
                 let s = c_fault::session_from(&mut s2);
                 let len = c_fault::inbound_len(&s);
-                for kind in 0..2u8 {
+                // (kinds 3 and 4: the same read faults with a late reader whose queue is exactly full)
+                for kind in [0u8, 1, 3, 4] {
                     for pos in 0..=len {
                         let mut b = vec![kind, (pos & 0xff) as u8, (pos >> 8) as u8];
                         b.extend_from_slice(sb);
